@@ -20,10 +20,14 @@ type injector struct {
 	fired   *FSEvent
 	root    string
 	rngPick func(int) int
+	// noSync: sync events are neither counted nor failed.  A sync error after the completed write of a
+	// transaction's last record leaves the outcome in doubt (C12 decides that case); a check that needs
+	// transactions that certainly failed sets this.
+	noSync bool
 }
 
 func (in *injector) onEvent(ev *FSEvent) (bool, int, error) {
-	if !in.armed {
+	if !in.armed || (in.noSync && ev.Op == "sync") {
 		return false, 0, nil
 	}
 	in.count++
